@@ -2,15 +2,13 @@
 import astlib as A
 import fe
 import splinejac
-import splines
 import tables
 
 
 def check(rep, tier, replay=None):
     rep.explanations.append(
-        "C11 (part): one iteration of the accumulation loop of cspline_eval_vs is abstracted into a normal form over a free Lie "
-        "algebra (bilinear bracket with [a,a]=0, transport operator kept symbolic, scalar coefficients as polynomials in the "
-        "basis-derivative values) and compared with the body-derivative recursion of g(u) = prod_j exp(Bcum_j(u) v_j) derived by the "
+        "C11 (part): cspline_eval_vs / _gs are abstractly executed (engine M) in a free Lie algebra (bilinear bracket with [a,a]=0, transport "
+        "operator kept symbolic, scalar coefficients as polynomials in the basis-derivative values) for K = 1..3 and every admissible output set and compared with the body-derivative recursion of g(u) = prod_j exp(Bcum_j(u) v_j) derived by the "
         "product rule; the basis-derivative rows it uses are the monomial_derivatives table decided under C20.  The Jacobian outputs "
         "(cspline_eval_dg_dvs / _dg_dgs) are decided in the ray-series domain (rules X2, X3): the optimized IR of witnesses is interpreted over "
         "truncated power series along v_j = t c_j and compared with the dual-number derivative of the defining recursion, for several "
@@ -20,7 +18,8 @@ def check(rep, tier, replay=None):
                            "inputs), for the (group, K, basis, u) instances listed in the evidence; rounding is not modelled")
     d = fe.ast_dumps(["cspline_eval"])
     rep.unit("umbrella TU filtered cspline_eval; 1 batched static_assert TU")
-    splines.check_x1(rep, A.index(d["cspline_eval"]))
+    import x1m
+    x1m.check(rep, d["cspline_eval"])
     # the derivative rows fed into the recursion: monomial_derivatives<K,3>(u) rows p are d^p/du^p of (1, u, .., u^K)
     ws = [w for w in tables.utility_witnesses(6) if w.id.startswith("mder")]
     tables.run(rep, "X1m", ws, "monomial_derivative(s)<K>(u, p) == k!/(k-p)! u^(k-p) (rows used as Bcum^(p) weights)", 7)
